@@ -1,0 +1,26 @@
+//go:build verif
+
+// Contracts for package message (used by C04, C09, C10, C11). Comment-only: read by /verif/bin/gsv,
+// never compiled into the package.
+
+package message
+
+//@ func GraphSyncResponse.RequestID
+//@   inline
+//@ func GraphSyncResponse.Status
+//@   inline
+//@ func GraphSyncRequest.ID
+//@   inline
+//@ func GraphSyncRequest.Type
+//@   inline
+//@ func newRequest
+//@   inline
+
+//@ func NewCancelRequest
+//@   lenient
+//@   modifies nothing
+//@   ensures result.id == id && result.requestType == graphsync.RequestTypeCancel
+//@ func NewUpdateRequest
+//@   lenient
+//@   modifies alloc
+//@   ensures result.id == id && result.requestType == graphsync.RequestTypeUpdate
